@@ -17,6 +17,7 @@ the characters `% ; |` are written `%XX`.
 `promote <kind>`               → `1` | `0`      (`maybe_promote(dtype)[0] == dtype`)
 `autofill <kind>`              → `1` | `0`      (`np.issubdtype(dtype, np.floating)`)
 `fill <mem> <disk> <enc:absent|none|value> <attr:0|1>` → `<encoding slot after disable> <file has _FillValue>`
+`fixattrs <units|!> ; <calendar|!>` → new units attribute | `ERR`   (`fix_time_units_for_ems` on the attributes found in the file)
 `timecoord <generic|shoc_standard|shoc_simple> <dims,|-> name|units-or-!|dt;…` → name | `-`
 `savetime …`     same line → variable whose units `to_netcdf` rewrites | `-` | `ERR` (save raises)
 `propcheck offset <m>`         → `1` iff parseOffset (formatOffset m) = some m
@@ -162,6 +163,14 @@ def step (line : String) : String :=
           s!"{showSlot v.enc} {bit (writesFill v)}"
         else "BAD"
       | _, _, _, _ => "BAD"
+    | _ => "BAD"
+  | "fixattrs" =>
+    match (String.ofList rest).splitOn " ; " with
+    | [u, cal] =>
+      let dec (x : String) : Option (Option Str) := if x = "!" then some none else (unesc x.toList).map some
+      match dec u, dec cal with
+      | some u, some cal => showOpt (fixAttrs (formatTimeUnitsChecked gregorian) u cal)
+      | _, _ => "BAD"
     | _ => "BAD"
   | "timecoord" | "savetime" =>
     let (conv, r1) := cut rest
